@@ -42,6 +42,7 @@ def run_check(prop, tier, sizes, scale=1.0):
         base = int(os.environ.get("VERIF_SEED", "0"))
     except ValueError:
         base = 0
+    os.environ["HISTSIM_TIER"] = tier  # read by the generator (thorough-only workload); inherited by sub-processes
     workers = _workers()
     print(f"histsim check {prop} tier={tier} VERIF_SEED={base} workers={workers} root={os.environ.get('GBASIS_ROOT', '/repo')}")
     sys.stdout.flush()
